@@ -89,6 +89,7 @@ namespace options
         template <typename Options, typename Iter>
         bool try_parse_as_option(Options&& options, Iter& it, Iter end);
         bool try_parse_as_toggle(const user_input&);
+        void check_short_list(const user_input&);
 
         void prepare_options();
         void validate_options();
